@@ -20,6 +20,17 @@
    Specification side: SgrRef.v (ref_sgr, ref_cells, rapply, abs_face), written from ECMA-48 /
    xterm / the kitty underline extension.
 
+   Final state.  Counted theorems (10): C06_roundtrip_modify, C06_roundtrip_face, C06_text,
+   C06_stream, C06_chunking, C06_apply, C06_sgr_sequence, C06_semantics_wf, C06_palette,
+   C06_inexpressible_refuted.  Audited, not counted: lemmas C06_roundtrip_empty_modify,
+   C06_text_same, C06_semantics_recorded; the three *_nonvacuous examples.
+   Restrictions visible in the statements: opaque colours; attribute word < 256; C06_text holds for
+   EVERY scalar value but ESC and the C1 introducers read back as U+FFFD because the encoder
+   writes them so on purpose (char_out; crate 73d8d1c); C06_semantics_wf needs item_ok = sgr_wf
+   (parameters completely defined by the standards, numbers of at most 19 digits) and no 7/27/39/49
+   (open known finding C06-inexpressible, witness C06_inexpressible_refuted); text in written
+   histories excludes ESC (it would open a sequence).
+
    Statements only; proofs are in Decoder/C06Main.v and the files it imports. *)
 From Coq Require Import List NArith Bool.
 From SNT Require Import Render.FaceModel Render.FaceModelProofs Decoder.Sgr Decoder.SgrRef Encoder.FaceEnc
